@@ -30,5 +30,9 @@ EmitCondR == Len(hist) >= 3 /\ res = "eb" /\ epoch >= 1
 GVoteR == \E v \in {1, 2}, c \in Claims : Bonded(v) /\ CNonce[c] = NonceOf(v) + 1 /\ Vote(v, c) /\ H("Vote", [v |-> v, c |-> c])
 GTallyR == Tally(FALSE) /\ H("Tally", [cu |-> FALSE])
 GNextR == (IF EmitCondR THEN PrintT(<<"HIST", ToJson(hist)>>) ELSE TRUE) /\ (GVoteR \/ GTallyR \/ GOverride)
+\* "dup" family: world where two of the three validators do NOT reach quorum (30/30/40): re-votes after a reset must not count twice
+Pow334 == <<30, 30, 40>>
+GVoteD == \E v \in Vals, c \in Claims : Bonded(v) /\ CNonce[c] = NonceOf(v) + 1 /\ Vote(v, c) /\ H("Vote", [v |-> v, c |-> c])
+GNextD == (IF EmitCondR THEN PrintT(<<"HIST", ToJson(hist)>>) ELSE TRUE) /\ (GVoteD \/ GTallyR \/ GOverride)
 Emit == Len(hist) = EmitAt => PrintT(<<"HIST", ToJson(hist)>>)
 =============================================================================
